@@ -3,10 +3,11 @@ C13 — masks: `_REPPMask._apply`, the blocking tests of `_process_match`, `_che
 `_make_mask_info`, `_get_mask_len`, the `new_mask` bookkeeping of `_REPPRule._apply`, and the
 threading of the mask array through groups (delphin/repp.py).  Core Lean only.
 
-Shape of the model: `_process_match` reports `blocked` independently of `shift`, and a blocked
-match is skipped by `continue` before anything of it is used; so a rule application under a mask is
-the mask-free rule application (`applyRule`, Model.lean) on the matches that are not blocked, plus
-the new mask array.  `blockedM` follows the blocking tests line by line.
+`applyRuleM`/`ruleLoopM` follow `_REPPRule._apply` line by line (every match goes through
+`_process_match`; a blocked one is skipped by `continue`); `blockedM` follows the blocking tests of
+`_process_match` line by line (its result does not depend on `shift`).  `applyRuleF` is the same in
+filter form — the mask-free `applyRule` on the matches that are not blocked — and
+`L.applyRuleM_eq_filter` (MaskLemmas.lean) proves the two equal.
 -/
 import Verif.C13.Model
 
@@ -112,14 +113,48 @@ structure ResM where
   mask : MaskA
 deriving Repr, DecidableEq
 
-/-- `_REPPRule._apply(s, active, mask)`. -/
-def applyRuleM (s : Str) (ms : List M) (mk : MaskA) (tr un : List Seg) : ResM :=
+/-- `_REPPRule._apply(s, active, mask)` in FILTER form: the mask-free loop over the matches that are
+not blocked.  (`applyRuleM` below is the loop as the code runs it; `applyRuleM_eq_filter` proves them equal.) -/
+def applyRuleF (s : Str) (ms : List M) (mk : MaskA) (tr un : List Seg) : ResM :=
   if ms.isEmpty then ⟨⟨s, false, zeromap s, zeromap s⟩, mk⟩
   else
     let live := liveMatches s ms mk tr un
     let r := ruleLoop s tr un live 0 0
     ⟨⟨r.1.out, !live.isEmpty, 0 :: r.1.sm ++ [r.2], 0 :: r.1.em ++ [r.2 - 1]⟩,
      0 :: maskLoop s mk tr un live 0 ++ [0]⟩
+
+/-- state of the `for m in ms` loop of `_REPPRule._apply`: emitted part, emitted mask entries, final
+`shift`, `applied`. -/
+structure LoopM where
+  part : Part
+  mask : MaskA
+  shift : Int
+  applied : Bool
+
+/-- The loop of `_REPPRule._apply` line by line: EVERY match is given to `_process_match`; a blocked
+one is skipped by `continue` — `pos`, `shift`, `parts`, the maps and `new_mask` are left as they are —
+otherwise the gap since `pos`, the replacement and its mask entries are emitted, `shift += delta`,
+`pos = m.end()`.  After the loop the rest of the string and of the mask are copied. -/
+def ruleLoopM (s : Str) (mk : MaskA) (tr un : List Seg) : List M → Nat → Int → LoopM
+  | [], pos, shift =>
+    ⟨if pos < s.length then copyPart (s.drop pos) shift else Part.empty,
+     mslice mk (pos + 1) (s.length + 1), shift, false⟩
+  | m :: ms, pos, shift =>
+    let b := blockedM s m mk tr un
+    if b.1 then ruleLoopM s mk tr un ms pos shift
+    else
+      let pm := processMatch s m shift tr un
+      let gap := if pos < m.s then copyPart (slice s pos m.s) shift else Part.empty
+      let r := ruleLoopM s mk tr un ms m.e (shift + pm.2)
+      ⟨gap ++ pm.1 ++ r.part, mslice mk (pos + 1) (m.s + 1) ++ b.2 ++ r.mask, r.shift, true⟩
+
+/-- `_REPPRule._apply(s, active, mask)` as the code runs it. -/
+def applyRuleM (s : Str) (ms : List M) (mk : MaskA) (tr un : List Seg) : ResM :=
+  if ms.isEmpty then ⟨⟨s, false, zeromap s, zeromap s⟩, mk⟩
+  else
+    let r := ruleLoopM s mk tr un ms 0 0
+    ⟨⟨r.part.out, r.applied, 0 :: r.part.sm ++ [r.shift], 0 :: r.part.em ++ [r.shift - 1]⟩,
+     0 :: r.mask ++ [0]⟩
 
 /-- `newmask[i] = v` (`none` = IndexError). -/
 def setAt (mk : MaskA) (i v : Nat) : Option MaskA :=
